@@ -31,7 +31,9 @@ def run(prop, tier, seed):
     for c in progs:
         for i, d in enumerate(d_tasks):
             # every drive with native pacing; a rotating collection schedule on top
-            extra = {"maxsteps": 60000, "quarantine": True}
+            # quarantine turns stale accesses into observations but also keeps reclaimed objects (and what they own) alive,
+            # which would hide a message that depends on its writer's heap in other ways: alternate
+            extra = {"maxsteps": 60000, "quarantine": i % 2 == 0}
             gc = plans[k % len(plans)]
             k += 1
             if gc.get("mode") != "native":
